@@ -70,6 +70,19 @@ checks = [
  chk("C15", "model_checking",
      "spec/gocc2.ebnf is read independently; the shipped front-end tables are dumped in-package; TLC explores the whole reachable product of the shipped tables with the canonical LR(1) automaton of the documented grammar (every token sequence; productions matched by head and body); the shipped parser is driven through its exported Parse with logging reduce functions and every trace is validated against the driver model over the canonical tables of the documented grammar.",
      TRUST, "TLA+ spec (LR1/LRProduct/LRParse/LRTrace) + TLC product reachability against the shipped tables + trace validation of the shipped parser", "5/C15"),
+ chk("C09", "model_checking",
+     "main() is an explicit TLA+ state machine (Pipeline.tla: stages, exit paths, packages written); TLC checks termination and status-zero-means-complete for all 64 flag sets x all input feature vectors and emits the outcome table; every row is instantiated with a concrete grammar on the real gocc (zero/non-zero status, packages written, go build of what was written). Hostile spellings must compile whenever gocc exits 0; seeded byte mutations, bracket towers and every nullable repetition shape up to depth 3 must terminate (a time-out is confirmed with a five-fold limit before it is reported).",
+     TRUST + " Termination on arbitrary bytes is sampled (fault-injection style), not proved.",
+     "TLA+ spec (Pipeline.tla) model-checked by TLC, its outcome table replayed on the real binary; seeded mutation sweep for termination/compilability", "5/C09"),
+ chk("C11", "exploration",
+     "The specification side (Pipeline.tla, LR1.tla, Regex.tla) admits one outcome per (file, flags): TLC reports maximum out-degree 1 for the pipeline; the real gocc is run k times per (grammar, flags) in fresh processes with different GOMAXPROCS and must produce byte-identical .go files, exit status and conflict count. Differential over runs - exploration, not a proof about Go's map order or scheduler.",
+     "Trusted: the Go runtime randomises map iteration per process; k runs sample it.", "TLA+ determinism of the pipeline model (TLC) + repeated real runs compared byte for byte", "5/C11"),
+ chk("C12", "model_checking",
+     "Pipeline.tla's outcome table shows presentation flags never change status/announcement/packages (only -no_lexer drops the lexer); for generated grammars each flag variant's decoded tables must equal the plain build's, and the variant's real runs are validated by TLC against the driver and scan-loop models instantiated with the PLAIN build's tables - debug builds at step granularity through their own -debug_lexer/-debug_parser output.",
+     TRUST, "TLA+ specs (Pipeline/LRParse/LexScan + trace specs): table equality + cross-variant trace validation with TLC", "5/C12"),
+ chk("C13", "model_checking",
+     "GoccLex.tla defines all ASCII spellings of a code point and the layouts between tokens; TLC checks each spelling denotes the code point under Go's rule (LitConv.tla) and emits the spelling table; seeded respelling plans are applied to generated grammar files and the real gocc must produce byte-identical packages and exit status.",
+     TRUST + " Grammar texts are tokenised by the harness (texts it rendered itself).", "TLA+ spelling model (GoccLex/LitConv) checked by TLC as plan generator + metamorphic runs of the real gocc", "5/C13"),
 ]
 
 claimed = {c["property_id"] for c in checks}
